@@ -368,6 +368,10 @@ Theorem stamps_step st e c t : fifo_ok (snd st) -> stamp_in (snd (step st e)) c 
   stamp_in (snd st) c t \/
   (match e with EFrame _ c1 _ _ => c = c1 | _ => False end /\ c <> 0 /\ b_seq (snd st) <= t < b_seq (snd (step st e))).
 Proof. intros HF H. exact (proj2 (proj2 (fifo_step st e HF)) c t H). Qed.
+Theorem stamps_kept pw st e c t : reach pw st -> stamp_in (snd (step st e)) c t ->
+  stamp_in (snd st) c t \/
+  (match e with EFrame _ c1 _ _ => c = c1 | _ => False end /\ c <> 0 /\ b_seq (snd st) <= t < b_seq (snd (step st e))).
+Proof. intros H. apply stamps_step. exact (fifo_reach pw st H). Qed.
 
 (** ================= the stamp is the number of calls that blocked before ================= *)
 Definition SQ (c : Z) (s : server) (b b' : blocking) : Prop :=
